@@ -25,6 +25,18 @@ def main():
     try:
         mod = importlib.import_module("rules." + pid)
         expl = mod.run(chk) or ""
+        if tier == "thorough":
+            # thorough tier: the same rule tables on the other feature configurations (no_std + alloc + libm with checking in a
+            # debug profile = K2; std with checking compiled out = K4), as C19 does for all properties at once
+            import rules.C19 as C19
+            if pid in C19.VALUE_RULES_ALL or pid == "C01":
+                for cfg in (("K2",) if pid == "C01" else ("K2", "K4")):
+                    before = len(chk.violations)
+                    C19.run_rules_under(chk, cfg, [pid])
+                    for v in chk.violations[before:]:
+                        v["rule"] = v["key"].split(":")[1] if v["rule"] == "C19.E" and v["key"].count(":") >= 2 else v["rule"]
+                    if cfg not in chk.configs:
+                        chk.configs.append(cfg)
     except program.AnchorMissing as e:
         chk.violation("anchor-missing", str(e), "an obligated item could not be located in the analysed program: %s" % e)
         expl = "aborted: anchor missing"
